@@ -2,6 +2,10 @@ mod util;
 mod p_c13;
 use util::Opts;
 
+/// Finite tables read out of the compiled code (DESIGN.md 2.1).
+fn reflect_all(_out: &std::path::Path) {
+}
+
 fn main() {
     let a: Vec<String> = std::env::args().collect();
     if a.len() < 2 { eprintln!("usage: vh <prop> --tier quick|thorough --seed N --out DIR [--only I]"); std::process::exit(2); }
@@ -19,6 +23,8 @@ fn main() {
     util::silence_panics();
     match a[1].as_str() {
         "c13" => p_c13::run(&o),
+        // `vh reflect --out DIR`: every reflector writes its coq/Gen/*.v tables into DIR
+        "reflect" => { std::fs::create_dir_all(&o.out).unwrap(); reflect_all(&o.out); }
         x => { eprintln!("unknown property driver {}", x); std::process::exit(2); }
     }
 }
